@@ -47,18 +47,22 @@ static std::vector<Bytes> alphabet(Tier t)
 	m.push_back(Bytes{'a', 0, 0, 'b'});    // zero pair behind data (ZPE pair code)
 	m.push_back(Bytes(30, 'a'));
 	m.push_back(Bytes(33, 0));
+	{	// > 256 decoded bytes without a slack-gaining full block, then a zero pair: the decoder must ask for
+		// buffer space with a long partial message (relocation path of mpt_queue_recv)
+		Bytes big(200, 'c'); big.push_back(0); big.insert(big.end(), 50, 'c'); big.push_back(0); big.insert(big.end(), 10, 'c');
+		big.push_back('a'); big.push_back(0); big.push_back(0); big.push_back('b'); m.push_back(big); }
 	if (t == Thorough) { m.push_back(Bytes(254, 'c')); m.push_back(Bytes(300, 'd')); }
 	return m;
 }
 static void sequences(Tier t, std::vector<std::vector<int>> &seqs)
 {
 	int n = (int) alphabet(t).size();
-	for (int a = 0; a < (t == Quick ? 6 : n); ++a) seqs.push_back({a});
+	for (int a = 0; a < n; ++a) if (t == Thorough || a != 6) seqs.push_back({a});
 	for (int a = 0; a < 5; ++a) for (int b = 0; b < 5; ++b) seqs.push_back({a, b});
 	if (t == Thorough) {
 		for (int a = 0; a < 7; ++a) for (int b = 0; b < 7; ++b) if (a >= 5 || b >= 5) seqs.push_back({a, b});
 		for (int a = 0; a < 5; ++a) for (int b = 0; b < 5; ++b) for (int c = 0; c < 5; ++c) seqs.push_back({a, b, c});
-		for (int a : {7, 8}) for (int b = 0; b < 5; ++b) { seqs.push_back({a, b}); seqs.push_back({b, a}); }
+		for (int a : {7, 8, 9}) for (int b = 0; b < 5; ++b) { seqs.push_back({a, b}); seqs.push_back({b, a}); }
 	}
 }
 
@@ -157,8 +161,14 @@ static bool receiver_step(Ctxt &cx, RState &s, int a, const Bytes &wire, const s
 	if (a <= R_DELALL) {
 		if (!avail) return false;
 		size_t freeb = s.q.mem.size() - s.q.len;
-		if (!freeb) return false;
-		if (a == R_DEL1) k = 1;
+		if (!freeb) freeb = 8;                                   // a full input queue is enlarged first, as mpt_stream_poll does
+		if (a == R_DEL1) {
+			// byte-wise delivery around every code byte / delimiter (2 behind .. 1 ahead) and at the stream end;
+			// inside long plain data runs only the jump to the next code byte is offered
+			size_t p = s.wpos; bool near = p + 2 >= wire.size() || mark[p] || mark[p + 1] || (p > 0 && mark[p - 1]) || (p > 1 && mark[p - 2]);
+			if (!near) return false;
+			k = 1;
+		}
 		else if (a == R_DELALL) k = avail;
 		else { size_t j = s.wpos; int want = a == R_DELCODE ? 1 : 2; while (j < wire.size() && mark[j] != want) ++j; if (j >= wire.size()) return false; k = j - s.wpos + 1; }
 		if (k > freeb) k = freeb;
@@ -172,6 +182,7 @@ static bool receiver_step(Ctxt &cx, RState &s, int a, const Bytes &wire, const s
 	if (a <= R_DELALL) {
 		// the poll path: shift consumed data, then load from the descriptor
 		LIB((mpt_queue_shift(&dq), 0));
+		if (dq.len == dq.max && !LIB(mpt_queue_prepare(&dq, 8))) viol = "mpt_queue_prepare failed";
 		size_t freeb = dq.max - dq.len; if (k > freeb) k = freeb;
 		if (k) {
 			if (write(g_pipe[1], wire.data() + s.wpos, k) != (ssize_t) k) viol = "harness pipe write failed";
@@ -233,6 +244,7 @@ static void explore(Run &r, Counters &c, int f, const std::vector<int> &seq, con
 	asan_error();
 
 	std::vector<Geo> sg = geometries(r.tier, true), rg = geometries(r.tier, false);
+	if (total > 64 && r.tier == Quick) sg.resize(2);       // long messages: the receiver is the subject, keep the sender part small
 
 	if (rep) {
 		// vec = [sgi, resizable, sender actions..., 99, rgi, receiver actions...]
